@@ -73,13 +73,13 @@ func randSpell(r *rng, v int64, exotic int) string {
 	}
 }
 
-func hInt(v int64) *hv       { return &hv{kind: "int", i: v, spell: "i64"} }
-func hText(s string) *hv     { return &hv{kind: "text", s: []byte(s)} }
-func hBytes(b []byte) *hv    { return &hv{kind: "bytes", s: b} }
-func hAlg(v int64) *hv       { return &hv{kind: "alg", i: v} }
-func hArr(xs ...*hv) *hv     { return &hv{kind: "arr", items: xs} }
-func hNil() *hv              { return &hv{kind: "nil"} }
-func hBool(b bool) *hv       { return &hv{kind: "bool", b: b} }
+func hInt(v int64) *hv    { return &hv{kind: "int", i: v, spell: "i64"} }
+func hText(s string) *hv  { return &hv{kind: "text", s: []byte(s)} }
+func hBytes(b []byte) *hv { return &hv{kind: "bytes", s: b} }
+func hAlg(v int64) *hv    { return &hv{kind: "alg", i: v} }
+func hArr(xs ...*hv) *hv  { return &hv{kind: "arr", items: xs} }
+func hNil() *hv           { return &hv{kind: "nil"} }
+func hBool(b bool) *hv    { return &hv{kind: "bool", b: b} }
 
 // ---- rendering to the wire
 
@@ -239,9 +239,9 @@ func (s *sigSpec) gotext() string {
 // ---- random generation
 
 type genCfg struct {
-	exoticSpell int  // % of labels / ints spelt with a Go type other than int64
-	invalid     int  // % of entries deliberately violating a §3.1 rule
-	depth       int  // remaining countersignature nesting
+	exoticSpell int // % of labels / ints spelt with a Go type other than int64
+	invalid     int // % of entries deliberately violating a §3.1 rule
+	depth       int // remaining countersignature nesting
 	maxEntries  int
 	goSide      bool // values may use Go-only kinds (alg, bytesnil, opaque)
 }
@@ -273,7 +273,7 @@ func randText(r *rng, c *genCfg) []byte {
 	return b
 }
 
-func (r *rng) pick2(xs [][]byte) []byte { return xs[r.intn(len(xs))] }
+func (r *rng) pick2(xs [][]byte) []byte  { return xs[r.intn(len(xs))] }
 func (r *rng) pick2s(xs []string) string { return xs[r.intn(len(xs))] }
 
 var intBoundaries = []int64{0, 1, 23, 24, 255, 256, 65535, 65536, 4294967295, 4294967296,
